@@ -1,27 +1,55 @@
 //! C07: compilation is deterministic.
 //!
-//! request : C07.repeat \t <dx|vk|vkba|msl> \t <all|nopipeline> \t <gen:<seed> | clash:<seed> | disk:<root>|<entry>>
-//! observe : digest of sources + stages + metadata + pipeline state (or of the diagnostic)
-//! oracle  : the same input compiled 5x in this process and once in each of 3 fresh processes (different
-//!           std RandomState seeds for every HashMap/HashSet instance) gives byte-identical results.
+//! request : C07.repeat \t <dx|vk|vkba|msl> \t <all|nopipeline> \t <gen:<seed> | clash:<seed> | disk:<root>|<entry>
+//!                                                                  | diag:<family>:<seed> | src:<hex of the source>>
+//! observe : digest of sources + stages + metadata + pipeline state, or of the fully rendered diagnostic
+//!           (message, file, line, column, source excerpt, notes) followed by `|<stage>/<error variant>`
+//! oracle  : the same input compiled 5x (accepted programs) / 8x (the diagnostics streams) in this process and
+//!           once in each of 3 fresh processes (different std RandomState seeds for every HashMap/HashSet
+//!           instance) gives byte-identical results.
 use crate::compile_util::*;
 use crate::progen::*;
 use crate::util::*;
 
-fn source_of(id: &str) -> Option<(Option<(String, String)>, Option<String>)> {
+#[path = "c07_diag.rs"]
+mod diag;
+
+/// One input of the property: files on disk or in memory, and whether the layout check is requested
+struct Input {
+    disk: Option<(String, String)>,
+    files: Vec<(String, String)>,
+    layout: bool,
+}
+
+fn mem(src: String) -> Input {
+    Input { disk: None, files: vec![("main.rssl".to_string(), src)], layout: false }
+}
+
+fn source_of(id: &str) -> Option<Input> {
     if let Some(seed) = id.strip_prefix("gen:") {
         let seed: u64 = seed.parse().ok()?;
         let prog = gen_program(&mut Rng::new(seed), &stress_opts());
-        Some((None, Some(render(&prog, &|_| true))))
+        Some(mem(render(&prog, &|_| true)))
     } else if let Some(seed) = id.strip_prefix("clash:") {
         let seed: u64 = seed.parse().ok()?;
-        Some((None, Some(clash_program(&mut Rng::new(seed)))))
+        Some(mem(clash_program(&mut Rng::new(seed))))
     } else if let Some(rest) = id.strip_prefix("disk:") {
         let (root, entry) = rest.split_once('|')?;
-        Some((Some((root.to_string(), entry.to_string())), None))
+        Some(Input { disk: Some((root.to_string(), entry.to_string())), files: Vec::new(), layout: false })
+    } else if let Some(rest) = id.strip_prefix("diag:") {
+        let (family, seed) = rest.split_once(':')?;
+        let seed: u64 = seed.parse().ok()?;
+        let p = diag::diag_program(family, &mut Rng::new(seed))?;
+        Some(Input { disk: None, files: p.files, layout: p.layout })
+    } else if let Some(h) = id.strip_prefix("src:") {
+        Some(mem(String::from_utf8(unhex(h)?).ok()?))
     } else {
         None
     }
+}
+
+fn is_diag_stream(id: &str) -> bool {
+    id.starts_with("diag:") || id.starts_with("src:")
 }
 
 /// Programs whose emitted names need generated suffixes in several scopes at once: the same
@@ -78,13 +106,131 @@ fn stress_opts() -> GenOpts {
     GenOpts { max_resources: 10, max_helpers: 6, max_pipes: 3, allow_mesh: true, share_entries: true }
 }
 
+fn compile_input(input: &Input, tgt: Tgt, mode: &Mode) -> CompileOutcome {
+    match &input.disk {
+        Some((root, entry)) => compile_disk(root, entry, tgt, mode.clone()),
+        None => compile(&Job {
+            entry: "main.rssl",
+            files: &input.files,
+            defines: &[],
+            target: tgt,
+            mode: mode.clone(),
+            validate_layout: input.layout,
+        }),
+    }
+}
+
 fn compile_id(id: &str, tgt: Tgt, mode: &Mode) -> Option<CompileOutcome> {
-    let (disk, src) = source_of(id)?;
-    Some(match (disk, src) {
-        (Some((root, entry)), _) => compile_disk(&root, &entry, tgt, mode.clone()),
-        (_, Some(src)) => compile_src(&src, tgt, mode.clone()),
-        _ => return None,
+    Some(compile_input(&source_of(id)?, tgt, mode))
+}
+
+/// Name of the enum variant at the head of a Debug rendering
+fn variant_of(debug: &str) -> String {
+    debug.chars().take_while(|c| c.is_ascii_alphanumeric() || *c == '_').collect()
+}
+
+/// Which stage rejects the input and with which error variant (statistics only: the oracle compares the
+/// rendered text of `rssl::compile`)
+fn classify(input: &Input, tgt: Tgt, rendered: &str) -> String {
+    if input.disk.is_some() {
+        return "disk/?".into();
+    }
+    let files = input.files.clone();
+    let layout = input.layout;
+    let rendered = rendered.to_string();
+    guard(move || {
+        let t_hlsl = if tgt == Tgt::Msl { "0" } else { "1" };
+        let t_msl = if tgt == Tgt::Msl { "1" } else { "0" };
+        let defines = [("__HLSL_VERSION", "2021"), ("RSSL_TARGET_HLSL", t_hlsl), ("RSSL_TARGET_MSL", t_msl)];
+        let mut sm = rssl::text::SourceManager::new();
+        let mut inc = MemFiles(files);
+        let tokens = match rssl::preprocess::preprocess("main.rssl", &mut sm, &mut inc, &defines) {
+            Ok(t) => t,
+            Err(e) => {
+                let d = format!("{:?}", e);
+                if d.starts_with("LexerError(") {
+                    // LexerError(LexerError { reason: <variant>, location: .. })
+                    let inner = d.split("reason: ").nth(1).unwrap_or("?");
+                    return format!("lexer/{}", variant_of(inner));
+                }
+                return format!("preprocess/{}", variant_of(&d));
+            }
+        };
+        let tokens = rssl::preprocess::prepare_tokens(&tokens);
+        let ast = match rssl::parser::parse(&tokens) {
+            Ok(a) => a,
+            Err(e) => return format!("parser/{}", variant_of(&format!("{:?}", e.0))),
+        };
+        let ir = match rssl::typer::type_check(&ast) {
+            Ok(ir) => ir,
+            Err(e) => return format!("typer/{}", variant_of(&format!("{:?}", e.0))),
+        };
+        if layout && rssl::ir::layout_checker::check_layout(&ir).is_err() {
+            return format!("layout/{}", if rendered.contains("unknown size") { "UnknownLayout" } else { "MismatchedLayout" });
+        }
+        // exporter / driver errors: the message itself names the kind
+        let first = rendered.lines().next().unwrap_or("");
+        let msg = first.rsplit("error: ").next().unwrap_or(first);
+        let shape: String = msg.chars().map(|c| if c.is_ascii_digit() { 'N' } else { c }).take(60).collect();
+        format!("export-{}/{}", tgt.name(), shape)
     })
+    .unwrap_or_else(|p| format!("classifier-panic/{}", p))
+}
+
+fn show(o: &CompileOutcome) -> String {
+    match o {
+        CompileOutcome::Err(e) => clip(e, 900),
+        other => other.digest(),
+    }
+}
+
+fn clip(t: &str, n: usize) -> String {
+    if t.chars().count() > n {
+        format!("{}...", t.chars().take(n).collect::<String>())
+    } else {
+        t.to_string()
+    }
+}
+
+/// inverse of util::one_line
+fn unescape(s: &str) -> String {
+    let mut out = String::new();
+    let mut it = s.chars();
+    while let Some(c) = it.next() {
+        if c == '\\' {
+            match it.next() {
+                Some('n') => out.push('\n'),
+                Some('t') => out.push('\t'),
+                Some('r') => out.push('\r'),
+                Some('\\') => out.push('\\'),
+                Some(o) => {
+                    out.push('\\');
+                    out.push(o);
+                }
+                None => out.push('\\'),
+            }
+        } else {
+            out.push(c);
+        }
+    }
+    out
+}
+
+/// the text of a generated rejected program, for the failure report
+fn program_text(id: &str) -> String {
+    if !is_diag_stream(id) {
+        return String::new();
+    }
+    match source_of(id) {
+        Some(input) => {
+            let mut t = String::from("; program:");
+            for (n, f) in &input.files {
+                t.push_str(&format!(" [{}] <<{}>>", n, clip(f, 1500)));
+            }
+            t
+        }
+        None => String::new(),
+    }
 }
 
 fn parse_req(line: &str) -> Option<(Tgt, Mode, String)> {
@@ -104,36 +250,89 @@ fn parse_req(line: &str) -> Option<(Tgt, Mode, String)> {
 fn child(lines: &[String]) {
     for line in lines {
         if let Some((t, m, id)) = parse_req(line) {
-            let d = compile_id(&id, t, &m).map(|o| o.digest()).unwrap_or_else(|| "bad".into());
-            println!("DIGEST\t{}", d);
+            match compile_id(&id, t, &m) {
+                Some(o) => println!("DIGEST\t{}\t{}", o.digest(), one_line(&show(&o))),
+                None => println!("DIGEST\tbad\tbad"),
+            }
         }
     }
 }
 
 fn run_requests(lines: &[String], out: &mut Out, hist: &mut Hist) {
+    let dump = std::env::var("C07_DUMP").is_ok();
     // in-process repeats
     let mut first: Vec<String> = Vec::new();
+    let mut obs: Vec<String> = Vec::new();
+    let mut shows: Vec<String> = Vec::new();
     let mut fails: Vec<Option<String>> = Vec::new();
     for line in lines {
-        let Some((t, m, id)) = parse_req(line) else {
+        let (Some((t, m, id)), true) = (parse_req(line), true) else {
             first.push("bad".into());
+            shows.push("bad".into());
+            obs.push("bad".into());
             fails.push(Some("bad request".into()));
             continue;
         };
-        let a = compile_id(&id, t, &m);
-        let d0 = a.as_ref().map(|o| o.digest()).unwrap_or_else(|| "bad".into());
+        let Some(input) = source_of(&id) else {
+            first.push("bad".into());
+            shows.push("bad".into());
+            obs.push("bad".into());
+            fails.push(Some("bad request".into()));
+            continue;
+        };
+        let a = compile_input(&input, t, &m);
+        let d0 = a.digest();
         // a panic is a C08 matter; for C07 it only has to be the same panic every time
         let mut fail = None;
-        for k in 1..5 {
-            let d = compile_id(&id, t, &m).map(|o| o.digest()).unwrap_or_else(|| "bad".into());
+        let repeats = if is_diag_stream(&id) { 8 } else { 5 };
+        for k in 1..repeats {
+            let b = compile_input(&input, t, &m);
+            let d = b.digest();
             if d != d0 && fail.is_none() {
-                fail = Some(format!("run {} in the same process differs: {} vs {}", k, d, d0));
+                fail = Some(match (&a, &b) {
+                    (CompileOutcome::Err(_), _) | (_, CompileOutcome::Err(_)) => format!(
+                        "run {} in the same process gives another diagnostic: <<{}>> vs first run <<{}>>{}",
+                        k,
+                        show(&b),
+                        show(&a),
+                        program_text(&id)
+                    ),
+                    _ => format!("run {} in the same process differs: {} vs {}", k, d, d0),
+                });
             }
         }
         hist.add(&format!("target={}", t.name()));
         hist.add(if d0.starts_with("ok") { "outcome=ok" } else if d0.starts_with("err") { "outcome=err" } else { "outcome=panic" });
-        hist.add(if id.starts_with("gen:") { "source=generated" } else if id.starts_with("clash:") { "source=name-clash" } else { "source=repo-corpus" });
+        hist.add(if id.starts_with("gen:") {
+            "source=generated"
+        } else if id.starts_with("clash:") {
+            "source=name-clash"
+        } else if id.starts_with("diag:") {
+            "source=diagnostics-generator"
+        } else if id.starts_with("src:") {
+            "source=repo-rejected-tests"
+        } else {
+            "source=repo-corpus"
+        });
+        let mut o = d0.clone();
+        if let CompileOutcome::Err(e) = &a {
+            let class = classify(&input, t, e);
+            hist.add(&format!("diag={}", class));
+            o = format!("{}|{}", d0, class);
+        }
+        if let Some(rest) = id.strip_prefix("diag:") {
+            let family = rest.split(':').next().unwrap_or("?");
+            hist.add(&format!("family={}:{}", family, if d0.starts_with("ok") { "accepted" } else if d0.starts_with("err") { "rejected" } else { "panic" }));
+        }
+        if dump {
+            for (n, f) in &input.files {
+                eprintln!("---- {} [{}]\n{}", n, line, f);
+            }
+            eprintln!("==== {}\n{}", o, match &a { CompileOutcome::Err(e) => e.clone(), other => other.digest() });
+        }
         first.push(d0);
+        shows.push(show(&a));
+        obs.push(o);
         fails.push(fail);
     }
     // fresh processes
@@ -153,21 +352,36 @@ fn run_requests(lines: &[String], out: &mut Out, hist: &mut Hist) {
             break;
         };
         let text = String::from_utf8_lossy(&output.stdout);
-        let digests: Vec<&str> = text.lines().filter_map(|l| l.strip_prefix("DIGEST\t")).collect();
+        let digests: Vec<(&str, &str)> = text
+            .lines()
+            .filter_map(|l| l.strip_prefix("DIGEST\t"))
+            .map(|l| l.split_once('\t').unwrap_or((l, "")))
+            .collect();
         for (i, d0) in first.iter().enumerate() {
-            let d = digests.get(i).copied().unwrap_or("missing");
+            let (d, shown) = digests.get(i).copied().unwrap_or(("missing", ""));
             if d != d0 && fails[i].is_none() {
-                fails[i] = Some(format!("fresh process {} differs: {} vs {}", proc_no, d, d0));
+                fails[i] = Some(if d.starts_with("err") || d0.starts_with("err") {
+                    let id = parse_req(&lines[i]).map(|r| r.2).unwrap_or_default();
+                    format!(
+                        "fresh process {} gives another diagnostic: <<{}>> vs this process <<{}>>{}",
+                        proc_no,
+                        unescape(shown),
+                        shows[i],
+                        program_text(&id)
+                    )
+                } else {
+                    format!("fresh process {} differs: {} vs {}", proc_no, d, d0)
+                });
             }
         }
     }
     let _ = std::fs::remove_file(&tmp);
-    for ((line, d0), fail) in lines.iter().zip(&first).zip(&fails) {
+    for ((line, o), fail) in lines.iter().zip(&obs).zip(&fails) {
         let oracle = match fail {
             None => "ok".to_string(),
             Some(f) => format!("FAIL:{}", f),
         };
-        out.case(line, d0, &oracle);
+        out.case(line, o, &oracle);
     }
 }
 
@@ -200,6 +414,31 @@ pub fn run(args: &Args, out: &mut Out) {
             lines.push(format!("C07.repeat\t{}\tall\tclash:{}", t.name(), seed));
         }
     }
+    // diagnostics stream: every family of rejected programs, several seeds each
+    let per_family = args.n.map(|n| (n / 15).max(1)).unwrap_or(if args.thorough() { 60 } else { 16 });
+    for (fi, family) in diag::FAMILIES.iter().enumerate() {
+        for j in 0..per_family {
+            let seed = rng.next() >> 16;
+            let every_target = family.starts_with("export") || family.starts_with("layout");
+            for (ti, t) in ALL_TARGETS.iter().enumerate() {
+                if every_target || ti == (fi + j as usize) % 4 {
+                    lines.push(format!("C07.repeat\t{}\tall\tdiag:{}:{}", t.name(), family, seed));
+                }
+            }
+        }
+    }
+    // the repository's own rejected inputs (first argument of check_fail / check_fail_message in the typer tests)
+    let mut rejected = 0;
+    for rel in ["typer/tests/type_check_tests.rs", "typer/tests/evaluator_tests.rs"] {
+        if let Ok(text) = std::fs::read_to_string(format!("{}/{}", repo, rel)) {
+            for (i, src) in diag::extract_rejected_inputs(&text, &["check_fail(", "check_fail_message("]).iter().enumerate() {
+                rejected += 1;
+                let t = if args.thorough() { ALL_TARGETS[i % 4] } else { Tgt::Dx };
+                lines.push(format!("C07.repeat\t{}\tnopipeline\tsrc:{}", t.name(), hex(src.as_bytes())));
+            }
+        }
+    }
+    hist.0.insert("repo-rejected-inputs".into(), rejected);
     // the repository's own inputs
     let corpus = repo_corpus(&repo);
     let take = if args.thorough() { corpus.len() } else { corpus.len().min(24) };
@@ -214,5 +453,10 @@ pub fn run(args: &Args, out: &mut Out) {
         }
     }
     run_requests(&lines, out, &mut hist);
-    out.stat(&format!("{{\"requests\":{},\"repeats_in_process\":5,\"fresh_processes\":3,\"hist\":{}}}", lines.len(), hist.json()));
+    out.stat(&format!(
+        "{{\"requests\":{},\"repeats_in_process\":\"5 (accepted-program streams) / 8 (diagnostics streams)\",\"fresh_processes\":3,\"diag_families\":{},\"hist\":{}}}",
+        lines.len(),
+        diag::FAMILIES.len(),
+        hist.json()
+    ));
 }
